@@ -231,6 +231,7 @@ struct Cfg {
     rel: bool,
     /// `ChildOf` is replicated (component kind 5): client-side despawns are recursive over the hierarchy
     hier: bool,
+    mismatch_kind: String,
     /// initial value of `ServerTick` (a long-running server: close to the 2^32 wrap)
     tick0: u32,
     policy: String,
@@ -297,9 +298,24 @@ fn add_common(app: &mut App, cfg: &Cfg, server_side: bool) {
     let _ = server_side;
 }
 
-/// A build whose registrations differ (one more client event at the end): a different protocol hash.
-fn add_mismatch(app: &mut App) {
-    app.add_client_event::<ExtraEvent>(Channel::Ordered);
+/// A build whose registrations differ at the end (one more client event, bundle rule, prioritised rule or independence
+/// mark): a different protocol hash.
+fn add_mismatch(app: &mut App, kind: &str) {
+    use bevy_replicon::shared::replication::replication_registry::rule_fns::RuleFns;
+    match kind {
+        "bundle" => {
+            app.replicate_bundle::<(A, B)>();
+        }
+        "priority" => {
+            app.replicate_with_priority(7, RuleFns::<A>::default());
+        }
+        "independent" => {
+            app.make_event_independent::<SE0>();
+        }
+        _ => {
+            app.add_client_event::<ExtraEvent>(Channel::Ordered);
+        }
+    }
 }
 
 fn val_of(world: &World, table: &Table, v: &Val) -> u32 {
@@ -725,7 +741,7 @@ impl Sim {
             let mut app = App::new();
             add_common(&mut app, &cfg, false);
             if cfg.mismatch == Some(clients.len()) {
-                add_mismatch(&mut app);
+                add_mismatch(&mut app, &cfg.mismatch_kind);
             }
             app.init_resource::<PendingCops>()
                 .init_resource::<Pre>()
@@ -1433,7 +1449,7 @@ fn parse_sop(t: &[&str]) -> Option<Sop> {
 }
 
 fn parse_cfg(line: &str) -> Cfg {
-    let mut cfg = Cfg { mismatch: None, rel: false, hier: false, tick0: 0, policy: "all".into(), auth: "none".into(), track: false, timeout_ms: 10_000, nclients: 1 };
+    let mut cfg = Cfg { mismatch_kind: "event".into(), mismatch: None, rel: false, hier: false, tick0: 0, policy: "all".into(), auth: "none".into(), track: false, timeout_ms: 10_000, nclients: 1 };
     for kv in line.split_whitespace().skip(1) {
         let Some((k, v)) = kv.split_once('=') else { continue };
         match k {
@@ -1444,6 +1460,7 @@ fn parse_cfg(line: &str) -> Cfg {
             "nclients" => cfg.nclients = v.parse().unwrap(),
             "rel" => cfg.rel = v == "1",
             "hier" => cfg.hier = v == "1",
+            "mkind" => cfg.mismatch_kind = v.into(),
             "tick0" => cfg.tick0 = v.parse().unwrap(),
             "mismatch" => cfg.mismatch = v.parse().ok(),
             _ => {}
